@@ -27,8 +27,12 @@ STEP_OUTSIDE = ["packets longer than the listed lengths", "option areas beyond t
                 "windows wider than W", "sequences of several inbound packets (state independence is checked separately in C09)"]
 
 
-def J(pkg, harness, reach=None, timeout=600, **params):
+def J(pkg, harness, reach=None, timeout=600, solver=None, query_ms=None, **params):
     j = {"pkg": pkg, "harness": harness, "params": {k: str(v) for k, v in params.items()}, "timeout_s": timeout}
+    if solver:
+        j["solver"] = solver
+    if query_ms:
+        j["query_ms"] = query_ms
     if reach:
         j["reach"] = reach
     return j
@@ -144,6 +148,100 @@ spec("C02", ["C02/", "send/", "setup/"], c02_jobs("quick"), c02_jobs("thorough")
       "catalogue": "time-exceeded with 28-byte quote / full quote / 128-byte padded quote + 8-byte extension / outer header with 4 option bytes; rewritten quoted TOS, TTL, header checksum; ICMP unused bytes, outer TOS/ID/TTL/checksum/DF symbolic; destination-unreachable with every code (UDP); echo reply with symbolic payload; SYN-ACK with 20 option bytes / none, RST, RST-ACK; duplicate ACK with 1-3 SACK blocks at any position, with and without timestamps, every initial sequence number",
       "relaxed": "quoted source address and port replaced by fresh symbols when LoosenICMPSrc is set"},
      ["reply forms outside the catalogue", "timing (reply inside the listening window) is decided in C07/C08; filters in C12"])
+
+
+# ---- C05: RTT fidelity ----
+spec("C05", ["C05/"], step_jobs("quick") + [
+        J("traceroute", "Verif_C20_e2e", ["end"], protocol="udp", method=""),
+        J("common", "Verif_C05_ms_zero", ["end"], bits=36, solver="cvc5"),
+     ], step_jobs("thorough") + [
+        J("traceroute", "Verif_C20_e2e", ["end"], protocol="tcp", method="sack"),
+        J("common", "Verif_C05_ms_zero", ["end"], bits=40, solver="cvc5"),
+        J("common", "Verif_C05_ms", ["end"], bits=24, solver="cvc5"),
+     ],
+     dict(STEP_BOUNDS, clock="virtual clock: arbitrary non-negative gaps (32-bit ns each) between sends and before the reply; computation takes no time",
+          ms="ConvertDurationToMs: durations below 2^36 ns (quick) / 2^40 ns (thorough) for sign and zero; monotonicity only below 2^24 ns in the thorough tier (64-bit division by 10^9 followed by IEEE division is beyond all three solvers at wider ranges)"),
+     STEP_OUTSIDE + ["real-clock jitter and scheduling delay (the model clock makes 'within one poll interval' exact)", "monotonicity of the ms conversion beyond the stated range"])
+
+# ---- C06: probe emission ----
+def c06_jobs(tier):
+    j = [
+        J("icmp", "Verif_C06_icmp", ["end"]), J("icmp", "Verif_C06_icmp", ["end"], v6=1),
+        J("udp", "Verif_C06_udp", ["end"]), J("udp", "Verif_C06_udp", ["end"], v6=1, min=1), J("udp", "Verif_C06_udp", ["end"], v6=1, min=254),
+        J("tcp", "Verif_C06_tcp", ["end"]), J("tcp", "Verif_C06_tcp", ["end"], paris=1),
+        J("sack", "Verif_C06_sack", ["end"], max=255), J("sack", "Verif_C06_sack", ["end"], max=30, ts=1),
+    ]
+    if tier == "thorough":
+        j += [J("icmp", "Verif_C06_icmp", ["end"], W=4), J("icmp", "Verif_C06_icmp", ["end"], v6=1, W=4),
+              J("udp", "Verif_C06_udp", ["end"], W=4), J("tcp", "Verif_C06_tcp", ["end"], W=4), J("tcp", "Verif_C06_tcp", ["end"], paris=1, W=3),
+              J("sack", "Verif_C06_sack", ["end"], max=255, W=4, ts=1), J("sack", "Verif_C06_sack", ["end"], max=64, W=4)]
+        for m in [2, 3, 63, 64, 127, 128, 250]:
+            j.append(J("udp", "Verif_C06_udp", ["end"], v6=1, min=m, W=3))
+    return j
+spec("C06", ["C06/", "send/", "setup/"], c06_jobs("quick"), c06_jobs("thorough"),
+     {"window": STEP_BOUNDS["window"], "ttl": "first TTL symbolic over 1..255 (UDP/IPv6: the listed first TTLs, its payload length depends on the TTL)",
+      "identifier bases": "echo id, IP-ID base, initial sequence/ack numbers, timestamps: every value",
+      "scope": "part (a)+(b) of DESIGN 5 C06: bytes handed to Sink.WriteTo and their destination; identifier uniqueness between the probes of a window"},
+     ["pacing, ordering and 'none after the destination answered' (engine level) are decided under C07/C03 harnesses, see DESIGN", "IP options on probes (none are generated)",
+      "the UDP rule that a computed zero checksum is sent as 0xffff (library behaviour, one configuration in 65536)"])
+
+# ---- C03 (clip/ToHops part), C11 (allocators), C16, C17, C19, C20 ----
+spec("C03", ["C03/"], [J("common", "Verif_C03_clip", ["end"], max=5)], [J("common", "Verif_C03_clip", ["end"], max=8)] + [J("common", "Verif_C03_clip", ["end"], max=m, minAt=m - 3) for m in (4, 128, 255)],
+     {"table": "result table of MaxTTL+1 slots, MaxTTL <= 5 (quick) / 8 (thorough) with MinTTL symbolic, plus windows of 4 slots ending at 4, 128, 255; every occupancy / destination pattern"},
+     ["the engines filling the table (C07 harnesses)", "longer tables"])
+spec("C11", ["C11/"], [J("packets", "Verif_C11_alloc", ["end"]), J("icmp", "Verif_C11_echoid", ["end"])], [J("packets", "Verif_C11_alloc", ["end"]), J("icmp", "Verif_C11_echoid", ["end"])],
+     {"allocations": "3 consecutive allocations of arbitrary sizes from an arbitrary 32-bit counter state (wrap-around of the counter and of the 16-bit identifier included)"},
+     ["more than 65535 live identifiers", "cross-matcher exclusion between concurrent runs (not built yet)", "atomicity under concurrent callers (C14)"])
+spec("C16", ["C16/"], [J("result", "Verif_C16_hops", ["end"], runs=2, hops=2), J("result", "Verif_C16_ids", ["end"]),
+                      J("result", "Verif_C16_e2e", ["answered", "none-answered"], n=2, solver="cvc5", query_ms=120000, timeout=900)],
+     [J("result", "Verif_C16_hops", ["end"], runs=2, hops=3), J("result", "Verif_C16_ids", ["end"]),
+      J("result", "Verif_C16_e2e", ["answered", "none-answered"], n=2, solver="cvc5", query_ms=300000, timeout=3000),
+      J("result", "Verif_C16_e2e", ["answered"], n=3, solver="cvc5", query_ms=600000, timeout=14000)],
+     {"samples": "RTT samples: n = 2 (quick) / 3 (thorough), each any float64 in [0, 1e13]; IEEE-754 exact",
+      "documents": "<= 2 runs x <= 2/3 hops, each hop empty / 4-byte / 16-byte symbolic address"},
+     ["JSON encoding/decoding (encoding/json is reflection driven: not executable symbolically)", "more samples",
+      "16-byte base64 injectivity in one query (decided per 3-byte group)"],
+     ["uuid.New returns 16 fresh bytes (model)"])
+spec("C17", ["C17/"], [J("result", "Verif_C17_redact", ["private", "public"], runs=1, hops=2),
+                      J("server", "Verif_C19_query", ["accepted"], url="/traceroute?target=1.2.3.4&skip-private-hops=true", wantTarget="1.2.3.4", wantProtocol="udp", wantMethod="syn", wantSkip=1),
+                      J("server", "Verif_C19_query", ["accepted"], url="/traceroute?target=1.2.3.4&skip-private-hops=banana", wantTarget="1.2.3.4", wantProtocol="udp", wantMethod="syn", wantSkip=0)],
+     [J("result", "Verif_C17_redact", ["private", "public"], runs=2, hops=2), J("result", "Verif_C17_redact", ["private", "public"], runs=1, hops=3)],
+     {"documents": "1-2 runs x 2-3 hops; every address byte symbolic (all block boundaries inside); RTT, flags, names symbolic"},
+     ["JSON encoding of the redacted document", "cobra flag parsing", "ordering of redaction after enrichment in RunTraceroute (needs the multi-run harness)"])
+
+def c19_jobs(tier):
+    jobs = []
+    combos = [("udp", "", "udp"), ("icmp", "", "icmp"), ("tcp", "", "syn"), ("tcp", "syn", "syn"), ("tcp", "sack", "sack"), ("tcp", "prefer_sack", "sack")]
+    targets = [("10.1.2.3", 0, "10.1.2.3", 33434), ("10.1.2.3:8080", 0, "10.1.2.3", 8080), ("10.1.2.3", 65535, "10.1.2.3", 65535), ("10.1.2.3", 1, "10.1.2.3", 1)]
+    for (proto, method, kind) in combos:
+        for (t, port, addr, wport) in (targets if tier == "thorough" or proto == "udp" else targets[:2]):
+            jobs.append(J("traceroute", "Verif_C19_params", ["accepted", "rejected"], target=t, port=port, protocol=proto, method=method, wantKind=kind, wantPort=wport, wantAddr=addr))
+    # values that must be rejected whatever the TTLs
+    for (proto, method, t, port) in [("udp", "", "10.1.2.3", 65536), ("udp", "", "10.1.2.3", -1), ("udp", "", "10.1.2.3:0", 0), ("udp", "", "10.1.2.3:65536", 0),
+                                      ("sctp", "", "10.1.2.3", 0), ("", "", "10.1.2.3", 0), ("tcp", "bogus", "10.1.2.3", 0), ("tcp", "SYN", "10.1.2.3", 0)]:
+        jobs.append(J("traceroute", "Verif_C19_params", ["rejected"], target=t, port=port, protocol=proto, method=method, wantKind="none", wantPort=0, wantAddr="0.0.0.0", mustReject=1))
+    jobs.append(J("traceroute", "Verif_C19_params", ["accepted", "rejected"], target="[2001:db8::1]:443", protocol="udp", method="", wantKind="udp", wantPort=443, wantAddr="2001:db8::1"))
+    jobs.append(J("traceroute", "Verif_C19_params", ["accepted", "rejected"], target="2001:db8::1", protocol="icmp", method="", wantKind="icmp", wantPort=0, wantAddr="2001:db8::1"))
+    jobs.append(J("server", "Verif_C19_query", ["accepted"], url="/traceroute?target=1.2.3.4&max-ttl=300&port=65536&protocol=tcp&tcp-method=prefer_sack", wantTarget="1.2.3.4", wantMaxTTL=300, wantPort=65536, wantProtocol="tcp", wantMethod="prefer_sack"))
+    jobs.append(J("server", "Verif_C19_query", ["accepted"], url="/traceroute?target=%5B2001%3Adb8%3A%3A1%5D%3A53&max-ttl=-4", wantTarget="[2001:db8::1]:53", **{"wantMaxTTL": -4}, wantProtocol="udp", wantMethod="syn"))
+    jobs.append(J("server", "Verif_C19_query", ["rejected"], url="/traceroute?max-ttl=3", wantErr=1))
+    # no crash at the extremes: driver construction + first/last probe
+    jobs += [J("sack", "Verif_C06_sack", ["end"], max=255), J("sack", "Verif_C06_sack", ["end"], max=1), J("icmp", "Verif_C06_icmp", ["end"]), J("udp", "Verif_C06_udp", ["end"]), J("tcp", "Verif_C06_tcp", ["end"])]
+    return jobs
+spec("C19", ["C19/", "panic", "send/", "setup/"], c19_jobs("quick"), c19_jobs("thorough"),
+     {"ttl bounds": "MinTTL and MaxTTL unconstrained 64-bit integers (negative, 0, 256, 65536+k all inside)", "ports": "-1, 0 (default), 1, 8080, 65535, 65536 and literal :0 / :65536",
+      "protocols/methods": "udp, icmp, tcp x {'', syn, sack, prefer_sack}; unknown protocol and method strings", "targets": "IPv4 and IPv6 literals, bracketed, with and without port",
+      "boundary": "the four protocol runners are observed at their entry (seam): the configuration object they receive is compared with the request"},
+     ["DNS names as targets", "cobra flag parsing", "what happens below the runner entry is covered by the driver harnesses (C06/C09) and TracerouteParams.validate"],
+     ["seams (harness/seams.json): one-line prologues inserted in memory into RunICMPTraceroute, (*UDPv4).Traceroute, (*TCPv4).Traceroute, RunSackTraceroute"])
+spec("C20", ["C20/"], [J("traceroute", "Verif_C20_fallback", ["end"], method=m) for m in ("syn", "", "sack", "syn_socket", "bogus")] +
+     [J("traceroute", "Verif_C20_fallback", ["prefer-sack-ok", "prefer-fallback", "prefer-fatal"], method="prefer_sack")] +
+     [J("traceroute", "Verif_C20_e2e", ["end"], protocol="tcp", method=m) for m in ("sack", "prefer_sack", "syn")] + [J("traceroute", "Verif_C20_e2e", ["end"], protocol="udp", method="sack")],
+     [J("traceroute", "Verif_C20_fallback", ["end"], method=m) for m in ("syn", "", "sack", "syn_socket", "bogus", "prefer_sack")] +
+     [J("traceroute", "Verif_C20_e2e", ["end"], protocol=p, method=m) for p in ("tcp", "udp", "icmp") for m in ("sack", "prefer_sack", "syn", "")],
+     {"error chains": "depth <= 3; each level fmt.Errorf %w / errors.Join / custom Unwrap type / fmt.Errorf %v (chain lost); NotSupportedError at the leaf or absent",
+      "scope": "parts (a) and (d) of DESIGN 5 C20: the policy function with recording closures, and the e2e probe's method choice"},
+     ["where NotSupportedError really comes from (runSackTraceroute with models: not built yet)", "that method syn never dials (entry-point harness: not built yet)"])
 
 for prop, s in SPECS.items():
     with open(os.path.join(HERE, prop + ".json"), "w") as f:
